@@ -506,44 +506,48 @@ func TestC08Stall(t *testing.T) {
 		kind := rapid.IntRange(0, 1).Draw(rt, "ctxkind")
 		for off := 0; off < len(record); off++ {
 			var viol string
-			synctest.Test(t, func(t *testing.T) {
-				tr := wire.New(record[:off], nil)
-				var ctx context.Context
-				var cancel context.CancelFunc
-				if kind == 0 {
-					ctx, cancel = context.WithTimeout(context.Background(), d)
-				} else {
-					ctx, cancel = context.WithCancel(context.Background())
-					go func() { time.Sleep(d); cancel() }()
-				}
-				defer cancel()
-				defer time.Sleep(time.Hour) // let helper goroutines finish inside the bubble
-				start := time.Now()
-				type res struct {
-					err error
-					at  time.Duration
-				}
-				ch := make(chan res, 1)
-				go func() {
-					_, err := newConn(ctx, tr, echKeys(sc.Key))
-					ch <- res{err, time.Since(start)}
-				}()
-				time.Sleep(d + time.Second)
-				synctest.Wait()
-				select {
-				case r := <-ch:
-					if r.err == nil {
-						viol = fmt.Sprintf("NewConn succeeded although the client stalled at offset %d", off)
-					} else if isPanic(r.err) {
-						viol = fmt.Sprintf("panic: %v", r.err)
-					} else if r.at != d {
-						viol = fmt.Sprintf("NewConn returned after %v, context ended after %v (stall at offset %d)", r.at, d, off)
+			// real-time watchdog around the bubble: a read loop that spins (instead of blocking)
+			// freezes virtual time, so only wall-clock time can expose it
+			watch("C08", map[string]any{"keys": keysReplay([]*hello.Key{sc.Key}), "client_stream": hx(record[:off]), "deadline_ms": d.Milliseconds(), "expect": "stall"}, func() {
+				synctest.Test(t, func(t *testing.T) {
+					tr := wire.New(record[:off], nil)
+					var ctx context.Context
+					var cancel context.CancelFunc
+					if kind == 0 {
+						ctx, cancel = context.WithTimeout(context.Background(), d)
+					} else {
+						ctx, cancel = context.WithCancel(context.Background())
+						go func() { time.Sleep(d); cancel() }()
 					}
-				default:
-					viol = fmt.Sprintf("NewConn still blocked 1 s after its context ended (stall at offset %d of %d)", off, len(record))
-					tr.Close()
-					<-ch
-				}
+					defer cancel()
+					defer time.Sleep(time.Hour) // let helper goroutines finish inside the bubble
+					start := time.Now()
+					type res struct {
+						err error
+						at  time.Duration
+					}
+					ch := make(chan res, 1)
+					go func() {
+						_, err := newConn(ctx, tr, echKeys(sc.Key))
+						ch <- res{err, time.Since(start)}
+					}()
+					time.Sleep(d + time.Second)
+					synctest.Wait()
+					select {
+					case r := <-ch:
+						if r.err == nil {
+							viol = fmt.Sprintf("NewConn succeeded although the client stalled at offset %d", off)
+						} else if isPanic(r.err) {
+							viol = fmt.Sprintf("panic: %v", r.err)
+						} else if r.at != d {
+							viol = fmt.Sprintf("NewConn returned after %v, context ended after %v (stall at offset %d)", r.at, d, off)
+						}
+					default:
+						viol = fmt.Sprintf("NewConn still blocked 1 s after its context ended (stall at offset %d of %d)", off, len(record))
+						tr.Close()
+						<-ch
+					}
+				})
 			})
 			if viol != "" {
 				ev.Violation(rt, "C08", map[string]any{"keys": keysReplay([]*hello.Key{sc.Key}), "client_stream": hx(record[:off]), "deadline_ms": d.Milliseconds(), "expect": "stall"}, "%s", viol)
